@@ -3,6 +3,7 @@ use crate::known::Finding;
 use serde_json::Value;
 use std::collections::BTreeSet;
 
+pub mod c08;
 pub mod c09;
 pub mod c11;
 pub mod c19;
@@ -81,6 +82,7 @@ pub fn registry() -> Vec<PropInfo> {
     let mut v = vec![];
     v.extend(hist::props());
     v.extend(eval::props());
+    v.extend(c08::props());
     v.extend(c09::props());
     v.extend(c11::props());
     v.extend(c24::props());
